@@ -31,7 +31,7 @@ type faultProxy struct {
 	ln       net.Listener
 	mu       sync.Mutex
 	upstream string
-	mode     string // pass | close | stall | garbage | negsize | oversize
+	mode     string // pass | close | stall | garbage | negsize | oversize | badident (next connection only)
 	conns    map[net.Conn]bool
 }
 
@@ -74,6 +74,9 @@ func (p *faultProxy) serve() {
 		}
 		p.mu.Lock()
 		mode, up := p.mode, p.upstream
+		if mode == "badident" {
+			p.mode = "pass" // only this connection gets the corrupted handshake answer
+		}
 		p.conns[c] = true
 		p.mu.Unlock()
 		go p.handle(c, mode, up)
@@ -130,7 +133,27 @@ func (p *faultProxy) handle(c net.Conn, mode, up string) {
 	}()
 	done := make(chan struct{}, 2)
 	go func() { io.Copy(u, c); done <- struct{}{} }()
-	go func() { io.Copy(c, u); done <- struct{}{} }()
+	go func() {
+		if mode == "badident" {
+			// the first reply (to IDENTIFY) keeps its framing but is not JSON; everything else passes through
+			var hdr [4]byte
+			if _, err := io.ReadFull(u, hdr[:]); err == nil {
+				n := binary.BigEndian.Uint32(hdr[:])
+				if n < 1<<20 {
+					body := make([]byte, n)
+					if _, err := io.ReadFull(u, body); err == nil {
+						for i := range body {
+							body[i] = 'x'
+						}
+						c.Write(hdr[:])
+						c.Write(body)
+					}
+				}
+			}
+		}
+		io.Copy(c, u)
+		done <- struct{}{}
+	}()
 	<-done
 }
 
@@ -404,6 +427,73 @@ func runLookupSync(lc *lsCase, dir string) {
 			lc.failf("[reorder] after /channel/delete + /channel/create of the same name (the deletion's notification delivered after the creation's): %s, still so after 50 heartbeat intervals", why)
 		}
 		return
+	case "badident":
+		// the lookupd is unreachable while a topic is created; the next connection's IDENTIFY answer is corrupted
+		// (well framed, not JSON) on an otherwise healthy connection; after that everything is healthy
+		proxies[0].set("close", "", true)
+		admin("/topic/create?topic=whiledown")
+		admin("/channel/create?topic=whiledown&channel=c1")
+		time.Sleep(3 * heartbeat)
+		proxies[0].set("badident", "", false)
+		if ok, why := converge(80 * heartbeat); !ok {
+			lc.failf("[badident] a topic created while nsqlookupd was unreachable, then one corrupted IDENTIFY answer: %s, still so after 80 heartbeat intervals", why)
+		}
+		return
+	case "precreate2":
+		// two lookupds known to nsqd; #1 goes away; #2 knows channel `pre` of topic `fresh2`
+		if len(lds) < 2 {
+			lc.Incon = "needs two lookupds"
+			return
+		}
+		st, err := httpPost("http://" + lds[1].http + "/channel/create?topic=fresh2&channel=pre")
+		if err != nil || st != 200 {
+			lc.Incon = "lookupd channel create failed"
+			return
+		}
+		lds[0].l.Exit()
+		// the topic comes into being through a consumer of ANOTHER channel: from then on its pump moves messages,
+		// so `pre` gets the first message only if it really was created together with the topic
+		oc, err := dial(nd.TCP, "other2")
+		if err != nil {
+			lc.Incon = err.Error()
+			return
+		}
+		defer oc.close()
+		oc.identify(nil)
+		if err := oc.sub("fresh2", "other"); err != nil {
+			lc.Incon = err.Error()
+			return
+		}
+		oc.cmd("RDY", "", "1")
+		if st, _, err := nd.post("/pub?topic=fresh2", []byte("first")); err != nil || st != 200 {
+			lc.failf("first publish to a fresh topic failed while one of two nsqlookupds was down: %v %d", err, st)
+			return
+		}
+		if fr, ok := oc.next(5 * time.Second); !ok || fr.Type != 2 {
+			lc.Incon = "the other channel did not get the message"
+			return
+		}
+		cn, err := dial(nd.TCP, "pre2")
+		if err != nil {
+			lc.Incon = err.Error()
+			return
+		}
+		defer cn.close()
+		cn.identify(nil)
+		if err := cn.sub("fresh2", "pre"); err != nil {
+			lc.Incon = err.Error()
+			return
+		}
+		cn.cmd("RDY", "", "1")
+		fr, ok := cn.next(5 * time.Second)
+		if !ok || fr.Type != 2 || string(fr.Body) != "first" {
+			lc.failf("[precreate] one of two nsqlookupds was down; the other knew channel `pre` for topic `fresh2`, which did not receive the topic's first message")
+		}
+		nl, err := startLookupd() // so that the deferred Exit() has something to stop
+		if err == nil {
+			lds[0] = nl
+		}
+		return
 	case "precreate":
 		// lookupd already knows channel `pre` for topic `fresh`: the very first message must reach it
 		st, err := httpPost("http://" + lds[0].http + "/channel/create?topic=fresh&channel=pre")
@@ -411,8 +501,24 @@ func runLookupSync(lc *lsCase, dir string) {
 			lc.Incon = "lookupd channel create failed"
 			return
 		}
+		oc, err := dial(nd.TCP, "other1")
+		if err != nil {
+			lc.Incon = err.Error()
+			return
+		}
+		defer oc.close()
+		oc.identify(nil)
+		if err := oc.sub("fresh", "other"); err != nil {
+			lc.Incon = err.Error()
+			return
+		}
+		oc.cmd("RDY", "", "1")
 		if st, _, err := nd.post("/pub?topic=fresh", []byte("first")); err != nil || st != 200 {
 			lc.failf("first publish to a fresh topic failed: %v %d", err, st)
+			return
+		}
+		if fr, ok := oc.next(5 * time.Second); !ok || fr.Type != 2 {
+			lc.Incon = "the other channel did not get the message"
 			return
 		}
 		cn, err := dial(nd.TCP, "pre")
@@ -465,11 +571,17 @@ func runLookupSync(lc *lsCase, dir string) {
 	}()
 	go func() {
 		defer wg.Done()
+		var stoppedAt time.Time
 		for atomic.LoadInt32(&stop) == 0 || atomic.LoadInt64(&recvs) < atomic.LoadInt64(&pubs) {
-			fr, ok := lcn.next(2 * time.Second)
+			fr, ok := lcn.next(500 * time.Millisecond)
 			if !ok {
 				if atomic.LoadInt32(&stop) == 1 {
-					return
+					if stoppedAt.IsZero() {
+						stoppedAt = time.Now()
+					}
+					if time.Since(stoppedAt) > 30*time.Second || lcn.isClosed() {
+						return
+					}
 				}
 				continue
 			}
@@ -480,7 +592,7 @@ func runLookupSync(lc *lsCase, dir string) {
 		}
 	}()
 	nsteps := 12 + rng.Intn(16)
-	modes := []string{"close", "stall", "garbage", "negsize", "oversize", "cut", "restart", "pass"}
+	modes := []string{"close", "stall", "garbage", "negsize", "oversize", "cut", "restart", "pass", "badident"}
 	for i := 0; i < nsteps; i++ {
 		switch rng.Intn(3) {
 		case 0, 1:
